@@ -54,6 +54,9 @@ type JobResult struct {
 	QUnsat     int64                    `json:"queries_unsat"`
 	QUnknown   int64                    `json:"queries_unknown"`
 	Fallbacks  int64                    `json:"fallback_queries"`
+	CacheHits  int64                    `json:"query_cache_hits"`
+	CoreHits   int64                    `json:"unsat_core_hits"`
+	PoolHits   int64                    `json:"model_pool_hits"`
 	SolverS    float64                  `json:"solver_s"`
 	WallS      float64                  `json:"wall_s"`
 	InitS      float64                  `json:"init_s"`
@@ -163,6 +166,10 @@ func runJob(prog *ssa.Program, job Job, verbose bool) *JobResult {
 			cfg.MaxViolations = int(v)
 		case "MaxAlloc":
 			cfg.MaxAlloc = int(v)
+		case "SliceOnly":
+			cfg.SliceOnly = v != 0
+		case "MaxCache":
+			cfg.MaxCache = int(v)
 		case "Witnesses":
 			cfg.Witnesses = int(v)
 		case "WitnessEvery":
@@ -207,6 +214,10 @@ func runJob(prog *ssa.Program, job Job, verbose bool) *JobResult {
 	}
 	ex.runtimeErrT = rt.Type("errorString").Type()
 	ex.registerIntrinsics()
+	if p := os.Getenv("GOSYM_DUMP"); p != "" {
+		ex.dumpF, _ = os.Create(p)
+		defer ex.dumpF.Close()
+	}
 	t0 := time.Now()
 	if err := ex.Explore(); err != nil {
 		res.Error = err.Error()
@@ -223,6 +234,9 @@ func runJob(prog *ssa.Program, job Job, verbose bool) *JobResult {
 	res.Asserts, res.AssertsSym = ex.asserts, ex.assertsSym
 	res.Queries, res.QSat, res.QUnsat, res.QUnknown = ex.totalQueries, ex.qSat, ex.qUnsat, ex.qUnknown
 	res.Fallbacks = ex.fallbacks
+	res.CacheHits = ex.cacheHits
+	res.CoreHits = ex.coreHits
+	res.PoolHits = ex.poolHits
 	res.SolverS = ex.solverDur.Seconds()
 	res.Funcs = sortedKeys(ex.funcs)
 	res.Stubs = sortedKeys(ex.stubs)
